@@ -134,6 +134,18 @@ def subclasscheck(t1, t2):
     if not isinstance(o2, type):
         o2 = None
 
+    if (
+        o1 is type
+        and o2 is None
+        and isinstance(t2, type)
+        and issubclass(t2, type)
+    ):
+        # A class passed as an argument (keyed as type[cls]) against a
+        # metaclass: the class is an instance of its metaclass
+        (cls,) = get_args(t1) or (object,)
+        if isinstance(cls, type):
+            return isinstance(cls, t2)
+
     if o1 or o2:
         o1 = o1 or t1
         o2 = o2 or t2
